@@ -4850,7 +4850,8 @@ class FlowIRConcrete(object):
         top_level_folders = list(top_level_folders or [])
         top_level_folders.extend(map(FlowIR.application_dependency_to_name, self.get_application_dependencies()))
 
-        for comp_id in component_identifiers:
+        # VV: also visit the component-like entries which $import documents (they are not actual components)
+        for comp_id in self.get_component_identifiers(True, include_documents=True):
             comp_ref = f"stage{comp_id[0]}.{comp_id[1]}"
 
             try:
@@ -4872,12 +4873,13 @@ class FlowIRConcrete(object):
                     comp, comp_schema=comp_schema, component_ids=all_identifiers, known_platforms=platforms,
                     top_level_folders=top_level_folders)
 
+                out_errors.extend(comp_errors)
+
                 if '$import' in comp:
                     # VV: The $import-style "component-like" dictionaries are not actual components, they just
                     # import other documents, we can skip the below checks
                     continue
 
-                out_errors.extend(comp_errors)
                 env_name = comp.get('command', {}).get('environment')
                 if not isinstance(env_name, str) and env_name is not None:
                     out_errors.append(experiment.model.errors.FlowIRSyntaxException(
